@@ -1,8 +1,84 @@
-"""Functions of spydrnet/ir under contract: (class, name, kind, [(param, kind)])."""
+"""Functions of spydrnet/ir under contract: (class, name, kind, [(param, kind)]).
+Parameter kinds: any = untyped reference (any IR class, None, foreign); optint = None|int; iter = set|list|non-iterable;
+key = str data key other than '.NS'; none = the argument is None (stated scope restriction)."""
+_CTOR = [('name', 'any'), ('properties', 'none')]
+_BND = [('is_downto', 'any'), ('is_scalar', 'any'), ('lower_index', 'any')]
 FUNCTIONS = [
+    # ---- Cable
+    ('Cable', '__init__', 'method', _CTOR + _BND),
     ('Cable', 'add_wire', 'method', [('wire', 'any'), ('position', 'optint')]),
     ('Cable', 'remove_wire', 'method', [('wire', 'any')]),
     ('Cable', 'remove_wires_from', 'method', [('wires', 'iter')]),
     ('Cable', 'create_wire', 'method', []),
+    ('Cable', 'create_wires', 'method', [('wire_count', 'int')]),
     ('Cable', 'wires', 'setter', [('value', 'iter')]),
+    # ---- Wire
+    ('Wire', '__init__', 'method', []),
+    ('Wire', 'connect_pin', 'method', [('pin', 'any'), ('position', 'optint')]),
+    ('Wire', 'disconnect_pin', 'method', [('pin', 'any')]),
+    ('Wire', 'disconnect_pins_from', 'method', [('pins', 'iter')]),
+    ('Wire', 'pins', 'setter', [('value', 'iter')]),
+    # ---- Port
+    ('Port', '__init__', 'method', _CTOR + _BND + [('direction', 'any')]),
+    ('Port', 'add_pin', 'method', [('pin', 'any'), ('position', 'optint')]),
+    ('Port', 'create_pin', 'method', []),
+    ('Port', 'create_pins', 'method', [('pin_count', 'int')]),
+    ('Port', 'remove_pin', 'method', [('pin', 'any')]),
+    ('Port', 'remove_pins_from', 'method', [('pins', 'iter')]),
+    ('Port', 'pins', 'setter', [('value', 'iter')]),
+    ('Port', 'direction', 'setter', [('value', 'any')]),
+    # ---- Bundle scalars
+    ('Cable', 'is_downto', 'setter', [('value', 'any')]),
+    ('Cable', 'is_scalar', 'setter', [('value', 'any')]),
+    ('Cable', 'is_array', 'setter', [('value', 'any')]),
+    ('Cable', 'lower_index', 'setter', [('value', 'any')]),
+    ('Port', 'is_scalar', 'setter', [('value', 'any')]),
+    ('Port', 'is_array', 'setter', [('value', 'any')]),
+    # ---- Definition
+    ('Definition', '__init__', 'method', _CTOR),
+    ('Definition', 'add_port', 'method', [('port', 'any'), ('position', 'optint')]),
+    ('Definition', 'create_port', 'method', _CTOR + _BND + [('direction', 'any'), ('pins', 'optint')]),
+    ('Definition', 'remove_port', 'method', [('port', 'any')]),
+    ('Definition', 'remove_ports_from', 'method', [('ports', 'iter')]),
+    ('Definition', 'add_cable', 'method', [('cable', 'any'), ('position', 'optint')]),
+    ('Definition', 'create_cable', 'method', _CTOR + _BND + [('wires', 'optint')]),
+    ('Definition', 'remove_cable', 'method', [('cable', 'any')]),
+    ('Definition', 'remove_cables_from', 'method', [('cables', 'iter')]),
+    ('Definition', 'add_child', 'method', [('instance', 'any'), ('position', 'optint')]),
+    ('Definition', 'create_child', 'method', _CTOR + [('reference', 'any')]),
+    ('Definition', 'remove_child', 'method', [('child', 'any')]),
+    ('Definition', 'remove_children_from', 'method', [('children', 'iter')]),
+    ('Definition', 'ports', 'setter', [('value', 'iter')]),
+    ('Definition', 'cables', 'setter', [('value', 'iter')]),
+    ('Definition', 'children', 'setter', [('value', 'iter')]),
+    # ---- Library
+    ('Library', '__init__', 'method', _CTOR),
+    ('Library', 'add_definition', 'method', [('definition', 'any'), ('position', 'optint')]),
+    ('Library', 'create_definition', 'method', _CTOR),
+    ('Library', 'remove_definition', 'method', [('definition', 'any')]),
+    ('Library', 'remove_definitions_from', 'method', [('definitions', 'iter')]),
+    ('Library', 'definitions', 'setter', [('value', 'iter')]),
+    # ---- Netlist
+    ('Netlist', '__init__', 'method', _CTOR),
+    ('Netlist', 'add_library', 'method', [('library', 'any'), ('position', 'optint')]),
+    ('Netlist', 'create_library', 'method', _CTOR),
+    ('Netlist', 'remove_library', 'method', [('library', 'any')]),
+    ('Netlist', 'remove_libraries_from', 'method', [('libraries', 'iter')]),
+    ('Netlist', 'libraries', 'setter', [('value', 'iter')]),
+    ('Netlist', 'top_instance', 'setter', [('instance', 'any')]),
+    ('Netlist', 'set_top_instance', 'method', [('instance', 'any'), ('instance_name', 'any')]),
+    # ---- Instance
+    ('Instance', '__init__', 'method', _CTOR),
+    ('Instance', 'reference', 'setter', [('value', 'any')]),
+    ('Instance', 'reference', 'deleter', []),
+    ('Instance', 'is_top_instance', 'setter', [('value', 'any')]),
+    # ---- element data (FirstClassElement; verified on one concrete subclass per distinct behaviour)
+    ('Definition', '__setitem__', 'method', [('key', 'key'), ('value', 'any')]),
+    ('Definition', '__delitem__', 'method', [('key', 'key')]),
+    ('Definition', 'pop', 'method', [('item', 'key')]),
+    ('Definition', 'name', 'setter', [('value', 'any')]),
+    ('Definition', 'name', 'deleter', []),
+    # ---- pins
+    ('InnerPin', '__init__', 'method', []),
+    ('OuterPin', '__init__', 'method', [('instance', 'any!OuterPin'), ('inner_pin', 'any!OuterPin')]),
 ]
